@@ -109,6 +109,12 @@ func (cs condSet) matches(res int, err error) (matched bool, errorsChecked bool)
 		case "E":
 			errorsChecked = true
 			matched = matched || errors.Is(err, errE1)
+		case "EE", "EE2":
+			errorsChecked = true
+			matched = matched || errors.Is(err, errE1) || errors.Is(err, errE2)
+		case "TT", "TT2":
+			errorsChecked = true
+			matched = matched || typeWalk(err, reflect.TypeOf(valErr{})) || typeWalk(err, reflect.TypeOf(&ptrErr{}))
 		case "Tv", "Tvp":
 			errorsChecked = true
 			matched = matched || typeWalk(err, reflect.TypeOf(valErr{}))
@@ -162,6 +168,14 @@ func applyHandle[S any](b failureBuilder[S], cs condSet) {
 			b.HandleResult(7)
 		case "I":
 			b.HandleIf(c12Pred)
+		case "EE":
+			b.HandleErrors(errE1, errE2)
+		case "EE2":
+			b.HandleErrors(errE2, errE1)
+		case "TT":
+			b.HandleErrorTypes(valErr{}, &ptrErr{})
+		case "TT2":
+			b.HandleErrorTypes(&ptrErr{}, valErr{})
 		default:
 			b.HandleErrorTypes(typeSample(c))
 		}
@@ -207,7 +221,7 @@ func c12CondSets() []condSet {
 	}
 	perm(nil, base)
 	// duplicates and both type forms together
-	for _, d := range [][]string{{"R", "E", "R"}, {"E", "E"}, {"Tv", "Tp"}, {"Tp", "R", "Tv"}, {"I", "R", "I"}, {"R", "R"}} {
+	for _, d := range [][]string{{"R", "E", "R"}, {"E", "E"}, {"Tv", "Tp"}, {"Tp", "R", "Tv"}, {"I", "R", "I"}, {"R", "R"}, {"EE"}, {"EE2"}, {"TT"}, {"TT2"}, {"TT", "R"}, {"R", "EE2"}, {"TT2", "EE"}, {"I", "TT"}} {
 		add(d)
 	}
 	return sets
@@ -367,6 +381,14 @@ func c12Abort(rep *vk.Report, idx int, cs condSet, o outcome) {
 			rpb.AbortOnResult(7)
 		case "I":
 			rpb.AbortIf(c12Pred)
+		case "EE":
+			rpb.AbortOnErrors(errE1, errE2)
+		case "EE2":
+			rpb.AbortOnErrors(errE2, errE1)
+		case "TT":
+			rpb.AbortOnErrorTypes(valErr{}, &ptrErr{})
+		case "TT2":
+			rpb.AbortOnErrorTypes(&ptrErr{}, valErr{})
 		default:
 			rpb.AbortOnErrorTypes(typeSample(c))
 		}
@@ -408,6 +430,14 @@ func c12Hedge(rep *vk.Report, idx int, cs condSet, o outcome) {
 				hb.CancelOnResult(7)
 			case "I":
 				hb.CancelIf(c12Pred)
+			case "EE":
+				hb.CancelOnErrors(errE1, errE2)
+			case "EE2":
+				hb.CancelOnErrors(errE2, errE1)
+			case "TT":
+				hb.CancelOnErrorTypes(valErr{}, &ptrErr{})
+			case "TT2":
+				hb.CancelOnErrorTypes(&ptrErr{}, valErr{})
 			default:
 				hb.CancelOnErrorTypes(typeSample(c))
 			}
